@@ -354,6 +354,11 @@ def replay(path):
     d = json.load(open(path))["replay"]
     import pandas as pd
     from _gettsim import gettsim_typing as GT, interface as I
+    if d.get("kind") == "groupsym":
+        from gsv import groupsym
+        bad = groupsym.replay(d)
+        print("reproduces:", bad)
+        return 1 if bad else 0
     if d["kind"] == "lossy":
         out = GT.convert_series_to_internal_type(pd.Series([d["v"]], dtype="int64"), float)
         print(d["v"], "->", repr(out.iloc[0]))
